@@ -293,7 +293,12 @@ struct TCase {
     mismatch: bool,
     dir_layout: bool,
     fmt: Fmt,
+    /// --dir only: further guard files beside the primary one: (relative path without extension,
+    /// kind), kind in good | mismatch | broken-rules | malformed-spec | no-tests
+    extra: Vec<(String, String)>,
 }
+
+const EXTRA_RULES: &str = "rule other {\n  a exists\n}\n";
 
 fn gen_tcase(u: &mut Choices) -> TCase {
     let rules_broken = u.chance(1, 6);
@@ -316,7 +321,19 @@ fn gen_tcase(u: &mut Choices) -> TCase {
         spec = format!("[{}", specs.join(","));
         spec.push_str(" {{");
     }
-    TCase { rules, rules_broken, spec, spec_kind, mismatch, dir_layout: u.chance(1, 3), fmt: *u.pick(&[Fmt::Single, Fmt::Json, Fmt::Yaml, Fmt::Junit]) }
+    let dir_layout = u.chance(1, 2);
+    let mut extra = vec![];
+    if dir_layout && u.chance(2, 3) {
+        // the primary file is x.guard: names that sort before and after it, some in a sub-directory
+        let names = ["alpha", "zeta", "sub/beta", "sub/yotta", "aaa/first"];
+        let n = u.range(1, 3);
+        let start = u.below(names.len());
+        for i in 0..n {
+            let kind = ["good", "good", "mismatch", "broken-rules", "malformed-spec", "no-tests"][u.below(6)];
+            extra.push((names[(start + i) % names.len()].to_string(), kind.to_string()));
+        }
+    }
+    TCase { rules, rules_broken, spec, spec_kind, mismatch, dir_layout, fmt: *u.pick(&[Fmt::Single, Fmt::Json, Fmt::Yaml, Fmt::Junit]), extra }
 }
 
 fn check_test(c: &TCase) -> Result<(String, i32), (String, String)> {
@@ -325,15 +342,29 @@ fn check_test(c: &TCase) -> Result<(String, i32), (String, String)> {
     let tp = dir.join("tests/x_tests.json");
     write_file(&rp, &c.rules);
     write_file(&tp, &c.spec);
+    for (rel, kind) in &c.extra {
+        let (d, stem) = match rel.rsplit_once('/') {
+            Some((d, s)) => (dir.join(d), s.to_string()),
+            None => (dir.clone(), rel.clone()),
+        };
+        write_file(&d.join(format!("{}.guard", stem)), if kind == "broken-rules" { "rule other {\n  a exists or\n}\n" } else { EXTRA_RULES });
+        let spec = match kind.as_str() {
+            "no-tests" => continue,
+            "mismatch" => "- name: m\n  input: {a: 1}\n  expectations:\n    rules:\n      other: FAIL\n",
+            "malformed-spec" => "- name: m\n  input: {a: 1\n  expectations: [\n",
+            _ => "- name: m\n  input: {a: 1}\n  expectations:\n    rules:\n      other: PASS\n",
+        };
+        write_file(&d.join(format!("tests/{}_tests.yaml", stem)), spec);
+    }
     let o = TOpts { fmt: c.fmt, verbose: false, alphabetical: false, last_modified: false };
     let r = if c.dir_layout { test_dir(&dir.to_string_lossy(), &o) } else { test_files(&rp.to_string_lossy(), &tp.to_string_lossy(), &o) };
     if let Some(p) = &r.panic {
         return Err((format!("test: panic {}", p), format!("panic:{}", p.split(' ').next().unwrap_or(""))));
     }
     let st = r.status();
-    let all_parse = !c.rules_broken && c.spec_kind == "ok";
+    let all_parse = !c.rules_broken && c.spec_kind == "ok" && !c.extra.iter().any(|(_, k)| k == "broken-rules" || k == "malformed-spec");
     let want = if all_parse {
-        if c.mismatch {
+        if c.mismatch || c.extra.iter().any(|(_, k)| k == "mismatch") {
             "7"
         } else {
             "0"
@@ -348,7 +379,7 @@ fn check_test(c: &TCase) -> Result<(String, i32), (String, String)> {
     };
     if !ok {
         return Err((
-            format!("test ({}{:?}, rules broken={}, spec {}, mismatch={}) exits {}, expected {} ; {}", if c.dir_layout { "--dir, " } else { "" }, c.fmt, c.rules_broken, c.spec_kind, c.mismatch, st, want, r.brief()),
+            format!("test ({}{:?}, rules broken={}, spec {}, mismatch={}, further guard files {:?}) exits {}, expected {} ; {}", if c.dir_layout { "--dir, " } else { "" }, c.fmt, c.rules_broken, c.spec_kind, c.mismatch, c.extra, st, want, r.brief()),
             format!("c06:test:{}:{}:{}", want, if c.rules_broken { "rules-broken" } else { c.spec_kind }, if c.dir_layout { "dir" } else { "file" }),
         ));
     }
@@ -357,7 +388,7 @@ fn check_test(c: &TCase) -> Result<(String, i32), (String, String)> {
 
 fn tcase_json(c: &TCase) -> J {
     json!({"kind": "test", "rules": c.rules, "rules_broken": c.rules_broken, "spec": c.spec, "spec_kind": c.spec_kind, "mismatch": c.mismatch, "dir_layout": c.dir_layout,
-           "fmt": c.fmt.flag()})
+           "fmt": c.fmt.flag(), "extra": c.extra.iter().map(|(a, b)| json!([a, b])).collect::<Vec<_>>()})
 }
 
 fn random_test(u: &mut Choices) -> CaseResult {
@@ -365,8 +396,8 @@ fn random_test(u: &mut Choices) -> CaseResult {
     match check_test(&c) {
         Ok((want, st)) => CaseResult::Pass(Info {
             nontrivial: true,
-            key: hash_case(&[&c.rules, &c.spec, c.fmt.flag(), &format!("{}", c.dir_layout)]),
-            classes: vec![format!("test-expected:{}", want), format!("test-observed:{}", st), format!("test-fmt:{}", c.fmt.flag()), format!("test-layout:{}", if c.dir_layout { "dir" } else { "file" })],
+            key: hash_case(&[&c.rules, &c.spec, c.fmt.flag(), &format!("{} {:?}", c.dir_layout, c.extra)]),
+            classes: vec![format!("test-expected:{}", want), format!("test-observed:{}", st), format!("test-fmt:{}", c.fmt.flag()), format!("test-layout:{}", if c.dir_layout { "dir" } else { "file" }), format!("test-guard-files:{}", 1 + c.extra.len())],
             evals: 1,
             sample: Some(tcase_json(&c)),
         }),
@@ -396,6 +427,7 @@ pub fn replay(case: &J) -> CaseResult {
             mismatch: case["mismatch"].as_bool().unwrap_or(false),
             dir_layout: case["dir_layout"].as_bool().unwrap_or(false),
             fmt,
+            extra: case["extra"].as_array().map(|a| a.iter().map(|e| (e[0].as_str().unwrap_or("").to_string(), e[1].as_str().unwrap_or("").to_string())).collect()).unwrap_or_default(),
         };
         return match check_test(&c) {
             Ok(_) => CaseResult::Pass(Info::default()),
@@ -412,7 +444,7 @@ pub fn replay(case: &J) -> CaseResult {
 
 pub fn run(tier: Tier, seed: u64) -> i32 {
     let spec = EvidenceSpec {
-        rule: "validate: 1-3 rules files of kind {all-PASS, some-FAIL, all-SKIP, blank, syntactically broken (6 shapes), evaluation error (3 shapes)} x 1-3 data files of kind {compliant, non-compliant, not applicable (every guarded rule SKIPs), malformed (4 shapes), empty} in generated order x invocation {plain, --structured json/yaml/junit/sarif, --payload plain/structured, data on stdin, rules and data as directories, a missing path}. The expected exit code is computed from facts established through other code paths: `parse-tree` decides whether a rules text parses, run_checks decides the status of every (rules, data) pair alone; then 0 / 19 / 5 / any non-zero / error-not-0-or-19 by the rule of the property statement. Stage 'validate-binary' runs the same through the real cfn-guard binary (process exit status, `main`'s Err -> 255). test: rules {ok, broken} x spec {ok, malformed, unknown status word} x {all expectations met, one mismatch} x {single file, --dir} x {console, json, yaml, junit}: 0 / 7 / non-zero. Non-trivial: the pairs of the run have at least two different individual outcomes; distinct by hash of all texts and the invocation.".into(),
+        rule: "validate: 1-3 rules files of kind {all-PASS, some-FAIL, all-SKIP, blank, syntactically broken (6 shapes), evaluation error (3 shapes)} x 1-3 data files of kind {compliant, non-compliant, not applicable (every guarded rule SKIPs), malformed (4 shapes), empty} in generated order x invocation {plain, --structured json/yaml/junit/sarif, --payload plain/structured, data on stdin, rules and data as directories, a missing path}. The expected exit code is computed from facts established through other code paths: `parse-tree` decides whether a rules text parses, run_checks decides the status of every (rules, data) pair alone; then 0 / 19 / 5 / any non-zero / error-not-0-or-19 by the rule of the property statement. Stage 'validate-binary' runs the same through the real cfn-guard binary (process exit status, `main`'s Err -> 255). test: rules {ok, broken} x spec {ok, malformed, unknown status word} x {all expectations met, one mismatch} x {single file, --dir with 0-3 further guard files (sorting before / after, in sub-directories; good, with a mismatch, broken rules, malformed spec, without tests)} x {console, json, yaml, junit}: 0 / 7 / non-zero. Non-trivial: the pairs of the run have at least two different individual outcomes; distinct by hash of all texts and the invocation.".into(),
         assumptions: vec!["`well-formed data` for the expectation is decided by serde_yaml accepting the text (the data kinds are chosen so that all loaders agree)".into()],
     };
     execute("C06", tier, seed, spec, &replay, &|run: &Session| {
